@@ -6,7 +6,15 @@ EXTENDS Search, Frontier
 Idle == [nv |-> 0, E |-> <<>>, hd |-> <<>>, src |-> 0, dst |-> 0, dir |-> "fwd", wd |-> 1, wt |-> 0,
          rd |-> 1, rt |-> 1, sur |-> <<>>, acc |-> "none", delay |-> [i \in 1..8 |-> 0], ok |-> <<>>,
          bad |-> {}, h |-> <<>>, itl |-> -1, szl |-> -1, init |-> <<0, 0>>, ties |-> TRUE,
-         orient |-> "vertex", osrc |-> 0, odst |-> 0]
+         orient |-> "vertex", osrc |-> 0, odst |-> 0, cu |-> <<1000, 1, 1000, 1>>]
+
+(* milli-cost per metre / per second of state change, from the units the STATE FEATURES are declared in
+   (costs are charged on the feature's own numbers); the units the traversal / access models compute in
+   (ev.units.distance / time / speed / delay) must not matter at all *)
+CuD(u) == CASE u = "meters" -> <<1000, 1>> [] u = "kilometers" -> <<1, 1>>
+CuT(u) == CASE u = "seconds" -> <<1000, 1>> [] u = "milliseconds" -> <<1000000, 1>>
+            [] u = "minutes" -> <<50, 3>> [] u = "hours" -> <<5, 18>>
+CuOf(ev) == CuD(ev.units.state_distance) \o CuT(ev.units.state_time)
 
 ScnOf(ev) ==
    [nv |-> ev.nv,
@@ -18,26 +26,30 @@ ScnOf(ev) ==
                                    /\ (ev.veh_on => VehicleOK(ev.vrestr[e], ev.veh))],     \* every model must permit the edge
     bad |-> {<<ev.bad[i][1], ev.bad[i][2]>> : i \in DOMAIN ev.bad},
     h |-> ev.h, itl |-> ev.itl, szl |-> ev.szl, init |-> ev.init, ties |-> TRUE,
-    orient |-> ev.orient, osrc |-> ev.osrc, odst |-> ev.odst]
+    orient |-> ev.orient, osrc |-> ev.osrc, odst |-> ev.odst, cu |-> CuOf(ev)]
 
 Abs(x) == IF x < 0 THEN -x ELSE x
 
 (* the estimate the search was given must be the specified one:                             *)
-(*   h(v) = weight factor x max(0, wd*rd*gc + wt*rt*gc/vmax), gc = great-circle distance,   *)
+(*   h(v) = weight factor x (wd*rd*gc + wt*rt*gc/vmax), gc = great-circle distance, each    *)
+(*   part in the unit of its state feature,                                                  *)
 (* and gc itself (the code's haversine, in decimetres) must be the small-angle distance of  *)
 (* the milli-degree lattice coordinates within 1 percent.                                   *)
 VMax(ev) == LET S == {ev.E[e][4] : e \in DOMAIN ev.E} IN CHOOSE x \in S : \A y \in S : y <= x
-HSpec(ev, v) ==   \* in milli-cost
-   LET gc == ev.gc[v]    \* decimetres
-       d10 == ev.wd * ev.rd * gc
-       t10 == IF ev.model = "distance" \/ gc = 0 THEN 0 ELSE (ev.wt * ev.rt * gc) \div VMax(ev)
-       c10 == IF d10 + t10 < 0 THEN 0 ELSE d10 + t10
-   IN (ev.wf * c10) \div 10
+HS(ev, gc) ==   \* the specified estimate for a great-circle distance of gc decimetres, in milli-cost (decimal floating point)
+   LET cu == CuOf(ev)
+       m  == SDiv(SInt(gc), SInt(10))
+       dp == SDiv(SMul(SInt(ev.wd * ev.rd * cu[1]), m), SInt(cu[2]))
+       tp == IF ev.model = "distance" \/ gc = 0 THEN SZero
+             ELSE SDiv(SMul(SInt(ev.wt * ev.rt), SMul(SInt(cu[3]), SDiv(m, SInt(VMax(ev))))), SInt(cu[4]))
+   IN SDiv(SMul(SInt(ev.wf), SAdd(dp, tp)), SInt(1000))
+(* tolerance: half a percent, plus what one decimetre of rounding in the logged distance is worth, plus 2 milli-cost *)
+HClose(ev, v) == LET want == HS(ev, ev.gc[v])
+                 IN SLeq(SAbs(SSub(SInt(ev.h[v]), want)), SAdd(SAdd(SDiv(want, SInt(200)), HS(ev, 1)), SInt(2)))
 HOK(ev) == \/ ev.dst = 0 /\ \A v \in 1..ev.nv : ev.h[v] = 0
            \/ ev.dst # 0 /\ ev.est_mode = "script" /\
                 \A v \in 1..ev.nv : Abs(ev.h[v] - ev.wf * ev.wd * ev.rd * ev.hscript[v]) <= 1
-           \/ ev.dst # 0 /\ ev.est_mode = "real" /\
-                \A v \in 1..ev.nv : Abs(ev.h[v] - HSpec(ev, v)) <= (HSpec(ev, v) \div 200) + ev.wf + 10
+           \/ ev.dst # 0 /\ ev.est_mode = "real" /\ \A v \in 1..ev.nv : HClose(ev, v)
 GcOK(ev) == ev.dst = 0 \/ ev.est_mode = "script" \/
             \A v \in 1..ev.nv :
                LET dx == ev.xy[v][1] - ev.xy[ev.dst][1]
